@@ -136,6 +136,23 @@ fn restart_stream(a: &snel_harness::out::Args) {
             // compared observation: the set of distinct ids returned (which of two events that
             // share an id survives the response writer's dedup depends on flow arrival order)
             let mut idset: Vec<u64> = pairs.iter().map(|(_, id)| *id).collect();
+            // An event of an earlier lifetime that is missing although its id is unique was lost
+            // by the WAL, not deduplicated (restarts and manual FLUSH drop WAL files by id: findings
+            // C01-wal-segment-id-skew): not this property's matter. Its id - known from when it was
+            // first read - is put back so that the comparison is about ids only.
+            let returned_keys: std::collections::BTreeSet<i64> = pairs.iter().map(|(kk, _)| *kk).collect();
+            let mut lost_by_wal = 0u64;
+            for (idx, id) in all_ids.iter().enumerate() {
+                let kk = idx as i64 + 1;
+                let unique = all_ids.iter().filter(|x| *x == id).count() == 1;
+                if !returned_keys.contains(&kk) && unique && !idset.contains(id) {
+                    idset.push(*id);
+                    lost_by_wal += 1;
+                }
+            }
+            if lost_by_wal > 0 {
+                s.tally_n("events_lost_by_wal_not_judged", lost_by_wal);
+            }
             idset.sort();
             idset.dedup();
             obs.push(idset.iter().map(|id| id.to_string()).collect::<Vec<_>>().join(","));
@@ -151,7 +168,7 @@ fn restart_stream(a: &snel_harness::out::Args) {
                     all_ids.push(*id);
                 }
             }
-            if (pairs.len() as u64) < k && fail.is_none() {
+            if (pairs.len() as u64 + lost_by_wal) < k && fail.is_none() {
                 // fewer rows than stored: two events share one id (dedup) when the clock was not later
                 let class = if clock_not_later { "restart-clock-not-later" } else { "-" };
                 fail = Some((class.into(), format!("{} of {k} stored events returned (duplicate ids)", pairs.len())));
